@@ -233,6 +233,15 @@ def fill_holes(mesh):
             return [hole], []
         # the hole is a quad, which we fill with two triangles
         if len(hole) == 4:
+            # a quad can be split along either diagonal: avoid one that is
+            # already an edge of the mesh (the new triangles would coincide
+            # with existing faces) or that leaves a triangle with no area
+            for quad in (hole, np.roll(hole, 1)):
+                pair = [quad[[0, 1, 2]], quad[[2, 3, 0]]]
+                if tuple(sorted(quad[[0, 2]].tolist())) in edges_existing:
+                    continue
+                if triangles.normals(mesh.vertices[np.array(pair)])[1].all():
+                    return pair, []
             face_A = hole[[0, 1, 2]]
             face_B = hole[[2, 3, 0]]
             return [face_A, face_B], []
@@ -256,6 +265,8 @@ def fill_holes(mesh):
 
     boundary_edges = mesh.edges[boundary_groups]
     index_as_dict = [{"index": i} for i in boundary_groups]
+    # every edge the mesh already has, to pick the diagonal of quad holes
+    edges_existing = set(map(tuple, mesh.edges_unique.tolist()))
 
     # we create a graph of the boundary edges, and find cycles.
     g = nx.from_edgelist(np.column_stack((boundary_edges, index_as_dict)))
